@@ -572,7 +572,9 @@ pub fn run_parent(p: &dyn Property, tier: Tier) -> RunResult {
                         // SIGKILL does not come from the case itself (the CPU budget announces itself with SIGXCPU, a
                         // stack overflow with SIGSEGV/SIGABRT): it is the kernel's out-of-memory killer or an operator
                         // on a loaded machine. The same case is run again, twice at most, before it is held against it.
-                        if what == "sigkill" {
+                        // (For a property whose statement is not about time, a CPU-limit kill is re-tried the same way:
+                        // a case that really loops is killed three times and then reported as inconclusive.)
+                        if what == "sigkill" || (what == "cpu-limit" && !p.abort_is_verdict()) {
                             if let Some((seq, _)) = &curcase {
                                 let n = kill_retries.entry((r.shard, *seq)).or_insert(0u32);
                                 if *n < 2 {
